@@ -14,6 +14,28 @@ Theorem C14_sid_resolves : forall rnd p t, p <> [] -> sid_plain rnd p = Ok t -> 
 Proof. exact sid_roundtrip. Qed.
 Print Assumptions C14_sid_resolves.
 
+(* The encrypter under the identifier (cryptojwt's FernetEncrypter) pads the plaintext with blanks and strips every
+   trailing blank after decrypting: what it hands back is `through_encrypter n t` for some n.  The framing
+   lv_pack(rnd, key, "") is immune to that: the identifier resolves to exactly its path for EVERY path - also when the
+   last identifier ends in blanks, is blanks only, or the key is empty - and every amount of padding. *)
+Theorem C14_sid_resolves_through_encrypter : forall rnd p t n,
+  p <> [] -> sid_plain rnd p = Ok t -> sid_path (through_encrypter n t) = Ok p.
+Proof. exact sid_padding_immune. Qed.
+Print Assumptions C14_sid_resolves_through_encrypter.
+(* identifiers minted with the framing lv_pack(rnd, key) of before the repair still decode ... *)
+Theorem C14_legacy_sid_decodes : forall rnd p t, p <> [] -> sid_plain_legacy rnd p = Ok t -> sid_path t = Ok p.
+Proof. exact sid_legacy_decodes. Qed.
+Print Assumptions C14_legacy_sid_decodes.
+(* ... but that framing was not immune (the identifier of user "trail " resolved to user "trail"), and the repaired one
+   is, on the same kind of path *)
+Example C14_legacy_framing_refuted :
+  sid_plain_legacy [114%N] [[116;114;97;105;108;32]%N] = Ok [49;58;114;54;58;116;114;97;105;108;32]%N
+  /\ sid_path (through_encrypter 5 [49;58;114;54;58;116;114;97;105;108;32]%N) = Ok [[116;114;97;105;108]%N].
+Proof. exact sid_legacy_refuted. Qed.
+Example C14_blank_identifiers_resolve :
+  exists t, sid_plain [114%N] [[32;32]%N; [32]%N] = Ok t /\ sid_path (through_encrypter 7 t) = Ok [[32;32]%N; [32]%N].
+Proof. exact sid_blanks_only. Qed.
+
 (* Distinct (user, client, grant) triples never share a key / session identifier plaintext. *)
 Theorem C14_key_injective : forall p q k, p <> [] -> q <> [] -> branch_key p = Ok k -> branch_key q = Ok k -> p = q.
 Proof. exact branch_key_injective. Qed.
@@ -118,3 +140,95 @@ Example C14_tree_nonvacuous :
   List.map fst (run bool (fun _ => true) demo_ops []) =
   [PS "diana"; PS "diana;;client_2"; PS "diana;;client_2;;g2"; PS "babs"; PS "babs;;client_1"; PS "babs;;client_1;;g3"].
 Proof. vm_compute. reflexivity. Qed.
+
+(* TIE BY TRANSLATION, continued: Database.unpack_branch_key and util.lv_pack as they read in /repo/src NOW
+   (coq/Gen/Src_db.v) compute the model's unpack_branch_key (kp) and lv_pack. *)
+Theorem C14_unpack_branch_key_is_source : forall key clock,
+  Src_db.unpack_branch_key_src (VStr key) clock = Ok (VList (List.map VStr (unpack_branch_key key))).
+Proof. exact Src_refine.unpack_branch_key_refines. Qed.
+Print Assumptions C14_unpack_branch_key_is_source.
+Theorem C14_lv_pack_is_source : forall args clock,
+  Src_db.lv_pack_src (VList (List.map VStr args)) clock = Ok (VStr (lv_pack args)).
+Proof. exact Src_refine.lv_pack_refines. Qed.
+Print Assumptions C14_lv_pack_is_source.
+
+(* ================================================================ read-only queries and operations through identifiers
+   `xrun G rv xs d` runs an extended history: the mutating operations above, revoke_sub_tree / remove_session through a
+   session or branch identifier, and the queries (sm[sid], get, get_node_info, get_grant, get_client_session_info,
+   get_user_session_info, branch_info / get_session_info, get_subordinates, grants, get_authentication_events,
+   find_token, decrypt_branch_id, encrypted_branch_id) through a path or an identifier of any level. *)
+
+(* a query hands back the store it was asked about *)
+Theorem C14_query_leaves_store : forall G rv d t q, fst (xstep G rv d (XQuery t q)) = d.
+Proof. exact xstep_query_store. Qed.
+Print Assumptions C14_query_leaves_store.
+
+(* queries interleaved anywhere in a history, any number of them, change nothing of what the history reaches; so every
+   statement above about `run G rv ops []` holds for histories with queries *)
+Theorem C14_queries_are_frame : forall G rv a qs b d,
+  forallb (is_query G) qs = true -> xrun G rv (a ++ qs ++ b)%list d = xrun G rv (a ++ b)%list d.
+Proof. exact xrun_queries_between. Qed.
+Print Assumptions C14_queries_are_frame.
+Theorem C14_history_with_queries : forall G rv xs d, xrun G rv xs d = run G rv (mut_ops G xs) d.
+Proof. exact xrun_run. Qed.
+Print Assumptions C14_history_with_queries.
+
+(* resolution of an issued identifier is a function of the identifier alone: after ANY history (queries through this or
+   any other identifier included) it resolves to the node stored under the key of exactly the path it was issued for
+   - or to KeyError once that node is removed *)
+Theorem C14_issued_id_resolves_after_any_history : forall G rv rnd p t k xs,
+  p <> [] -> sid_plain rnd p = Ok t -> branch_key p = Ok k ->
+  resolve G t (xrun G rv xs []) =
+  match assoc k (run G rv (mut_ops G xs) []) with Some n => Ok (k, n) | None => Err KeyError end.
+Proof. exact resolve_stable. Qed.
+Print Assumptions C14_issued_id_resolves_after_any_history.
+Theorem C14_queries_do_not_move_an_id : forall G rv rnd p t qs d,
+  p <> [] -> sid_plain rnd p = Ok t -> forallb (is_query G) qs = true ->
+  resolve G t (xrun G rv qs d) = q_node G p d.
+Proof. exact resolve_after_queries. Qed.
+Print Assumptions C14_queries_do_not_move_an_id.
+(* identifiers issued for different paths never resolve to the same stored node *)
+Theorem C14_ids_resolve_apart : forall G r1 r2 p q t1 t2 d k1 n1 k2 n2,
+  p <> [] -> q <> [] -> sid_plain r1 p = Ok t1 -> sid_plain r2 q = Ok t2 -> p <> q ->
+  resolve G t1 d = Ok (k1, n1) -> resolve G t2 d = Ok (k2, n2) -> k1 <> k2.
+Proof. exact resolve_apart. Qed.
+Print Assumptions C14_ids_resolve_apart.
+
+(* removal / revocation through an issued identifier is removal / revocation of exactly the path it was issued for
+   (so C14_delete_exact and the frame statements apply to it), whatever was asked through the identifier before *)
+Theorem C14_remove_through_id : forall G rv rnd p t d,
+  p <> [] -> sid_plain rnd p = Ok t -> fst (xstep G rv d (XRemoveId (ById t))) = fst (step G rv d (ODelete p)).
+Proof. exact remove_by_issued_id_store. Qed.
+Print Assumptions C14_remove_through_id.
+Theorem C14_revoke_through_id : forall G rv rnd p t l d,
+  p <> [] -> sid_plain rnd p = Ok t -> fst (xstep G rv d (XRevokeId (ById t) l)) = fst (step G rv d (ORevoke p l)).
+Proof. exact revoke_by_issued_id_store. Qed.
+Print Assumptions C14_revoke_through_id.
+
+(* what the answers contain: sm[sid] / get(path) is the one node stored for the path; grants(...) on a reachable store
+   hands back stored Grants one level below the (user, client) node asked about and nothing of anybody else *)
+Theorem C14_get_is_exact : forall G p d a, query G QGet p d = Ok a ->
+  exists k n, branch_key p = Ok k /\ assoc k d = Some n /\ a = ([], [(k, n)]).
+Proof. exact query_get_exact. Qed.
+Print Assumptions C14_get_is_exact.
+Theorem C14_grants_of_one_client : forall G rv xs p ck l,
+  branch_key p = Ok ck -> q_grants G p (xrun G rv xs []) = Ok l ->
+  forall k n, In (k, n) l -> assoc k (xrun G rv xs []) = Some n /\ is_grant G n = true /\
+                             exists x, unpack_branch_key k = (unpack_branch_key ck ++ [x])%list.
+Proof. exact xreach_grants_below. Qed.
+Print Assumptions C14_grants_of_one_client.
+
+(* non-vacuity: two grants of diana at client_1; grants(<id of g1>) lists both and the store is what it was; the id of
+   g1 still resolves to g1; remove_session(<id of g1>) afterwards removes g1 and keeps g2 *)
+Definition demo_sid : pystr := lv_pack [PS "rnd"; PS "diana;;client_1;;g1"; PS ""].
+Definition demo_xops : list (xop bool) :=
+  [ XOp (OAddGrant (PS "diana") (PS "client_1") (PS "g1") false); XOp (OAddGrant (PS "diana") (PS "client_1") (PS "g2") false);
+    XQuery (ById demo_sid) (QGrants true); XQuery (ById demo_sid) QGet ].
+Example C14_query_nonvacuous :
+  List.map fst (snd (match snd (xstep bool (fun _ => true) (xrun bool (fun _ => true) demo_xops []) (XQuery (ById demo_sid) (QGrants true)))
+                     with Ok a => a | _ => ([], []) end))
+  = [PS "diana;;client_1;;g1"; PS "diana;;client_1;;g2"]
+  /\ (match resolve bool demo_sid (xrun bool (fun _ => true) demo_xops []) with Ok kn => Some (fst kn) | _ => None end) = Some (PS "diana;;client_1;;g1")
+  /\ List.map fst (xrun bool (fun _ => true) (demo_xops ++ [XRemoveId (ById demo_sid)])%list [])
+     = [PS "diana"; PS "diana;;client_1"; PS "diana;;client_1;;g2"].
+Proof. vm_compute. repeat split; reflexivity. Qed.
